@@ -49,6 +49,10 @@ type ExpConfig struct {
 	// QueueDisabled: no sending queue and no batcher at all: ConsumeX is synchronous (obsreport, retry, timeout,
 	// export function on the caller's goroutine).
 	QueueDisabled bool `json:"queue_disabled,omitempty"`
+	// Unvalidated: the queue configuration is handed to WithQueue without the collector's config validation, as a
+	// component that builds its configuration in code can do (used for a persistent queue that is not
+	// request-sized, which writes its size to the storage during Shutdown).
+	Unvalidated bool `json:"unvalidated,omitempty"`
 	// BlockOnOverflow: sending_queue.block_on_overflow: a producer waits for space instead of being refused.
 	BlockOnOverflow bool `json:"block_on_overflow,omitempty"`
 	Mutates         bool `json:"mutates,omitempty"`
@@ -124,7 +128,7 @@ func (c ExpConfig) Options() ([]exporterhelper.Option, error) {
 				return nil, err
 			}
 		}
-		if err := q.Validate(); err != nil {
+		if err := q.Validate(); err != nil && !c.Unvalidated {
 			return nil, err
 		}
 		opts = append(opts, exporterhelper.WithQueue(q))
